@@ -7,7 +7,7 @@ from .. import drv_lfr as D
 def run(ctx):
     q, rng = ctx.quick, ctx.rng
     ctx.model("MC_LFR", "MC_LFR%s.cfg" % ("" if q else "_deep"), require_actions=("Update", "Rst"))
-    rep = lambda ts: (lambda i: {"params": ts[i]["params"], "cells": ts[i]["cells"], "seed": ts[i]["seed"], "enc": ts[i].get("enc", 0), "resets": ts[i].get("resets", [])})
+    rep = lambda ts: (lambda i: {"params": ts[i]["params"], "cells": ts[i]["cells"], "seed": ts[i]["seed"], "enc": ts[i].get("enc", 0), "resets": ts[i].get("resets", []), "bads": ts[i].get("bads", [])})
     # every cell sequence of length n on the real class (small num_mc keeps the Monte-Carlo cheap)
     n, ncfg = (4, 2) if q else (6, 6)
     ts = []
@@ -30,7 +30,8 @@ def run(ctx):
     t2 = []
     for i in range(n2):
         rs = tuple(sorted(rng.sample(range(3, ln), rng.randint(1, 3)))) if i % 2 == 0 else ()      # user resets at arbitrary stream positions
-        t = D.run(D.params(rng), D.regime_cells(rng, ln), rng.randrange(10 ** 6), enc=encs[i % len(encs)], resets=rs)
+        t = D.run(D.params(rng), D.regime_cells(rng, ln), rng.randrange(10 ** 6), enc=encs[i % len(encs)], resets=rs,
+                  bads=tuple(sorted(rng.sample(range(0, ln), rng.randint(1, 3)))) if i % 3 == 0 else ())
         t["enc"] = i % len(encs)
         t2.append(t)
     ctx.validate("LFR", t2, "regime-changing (y_true, y_pred) streams", sabotage=D.sabotage, replay=rep(t2),
@@ -46,6 +47,6 @@ def replay(ctx, bundle):
     import numpy as np
     encs = [None, lambda a, b, t: (bool(a), bool(b)), lambda a, b, t: (np.bool_(a), np.bool_(b)), lambda a, b, t: (np.int64(a), np.int64(b)),
             lambda a, b, t: (np.array([a]), np.array([b])), lambda a, b, t: (np.array([a]) > 0, np.array([b]) > 0), lambda a, b, t: ([a], [b])]
-    t = D.run(r["params"], [tuple(c) for c in r["cells"]], r["seed"], enc=encs[r.get("enc", 0)], resets=tuple(r.get("resets", ())))
+    t = D.run(r["params"], [tuple(c) for c in r["cells"]], r["seed"], enc=encs[r.get("enc", 0)], resets=tuple(r.get("resets", ())), bads=tuple(r.get("bads", ())))
     ctx.validate("LFR", [t], "replay", replay=lambda i: r)
     return ctx.finish()
